@@ -237,7 +237,7 @@ def A_term(ctx, lib):
         eng = ctx.engine([lib], no_inline={b.path})
         st = symx.State()
         FORM = ("sym", "formula")
-        paths = eng.summarise(b, [shared.ref_to(st, FORM)], st)
+        paths = eng.summarise(b, [shared.ref_to(st, FORM)] + ([None] * (b.argc - 1)), st)
         seen = {}
         for p in paths:
             if p.end != "return":
@@ -255,14 +255,20 @@ def A_term(ctx, lib):
                 def boxed_sub(x, i, vn=vn):
                     while x[0] == "app" and x[1] == "Box":
                         x = deep_strip(x[2][0])
-                    return is_call(x, "Formula::to_boolean_expr") and deep_strip(x[2][0]) == ("field", ("downcast", FORM, vn), str(i))
+                    same_naming = len(x[2]) == 1 or deep_strip(x[2][1]) in (("sym", "arg2"), ("sym", "*arg2"))
+                    return is_call(x, "Formula::to_boolean_expr") and deep_strip(x[2][0]) == ("field", ("downcast", FORM, vn), str(i)) and same_naming
                 if vn == "Bot":
                     ok = r[2] == "Const" and fields == [symx.vbool(False)]
                 elif vn == "Top":
                     ok = r[2] == "Const" and fields == [symx.vbool(True)]
                 elif vn == "Atom":
-                    ok = r[2] == "Variable" and len(fields) == 1 and symx.contains(fields[0], lambda n: n == ("field", ("downcast", FORM, "Atom"), "0")) \
-                        and (fields[0][0] == "app" and flow.last(fields[0][1]) in ("to_string", "to_owned", "from", "into"))
+                    label = ("field", ("downcast", FORM, "Atom"), "0")
+                    x = fields[0] if len(fields) == 1 else ("x",)
+                    by_label = x[0] == "app" and flow.last(x[1]) in ("to_string", "to_owned", "from", "into") and deep_strip(x[2][0]) == label
+                    # naming function handed in by the caller (checked at the call sites: C09.A-name)
+                    by_param = x[0] == "app" and flow.last(x[1]) in ("call", "call_mut", "call_once") and symx.contains(x[2][0], lambda n: n == ("sym", "arg2") or n == ("sym", "*arg2")) \
+                        and symx.contains(x[2][1], lambda n: n == label)
+                    ok = r[2] == "Variable" and (by_label or by_param)
                 elif vn in FORMULA_OPS:
                     ar = FORMULA_OPS[vn][1]
                     ok = r[2] == vn and len(fields) == ar and all(boxed_sub(fields[i], i) for i in range(ar))
@@ -291,6 +297,75 @@ def A_term(ctx, lib):
         ctx.lost(rule, "VarContainer::variable", str(e))
 
 
+def A_name(ctx, lib):
+    rule = "C09.A-name"
+    ctx.rule(rule, "naming agreement of the biodivine variables: the variable of position i is created under the name N(i) (make_variables receives the names in position "
+                   "order) and every BooleanExpression::Variable refers to a statement through the same N: Atom(label) -> N(dict_value(label)), rewritings -> N(position); "
+                   "dict_value(label) = dict.get(label) (the dictionary that orders namelist, C08.F-label)")
+    scheme, info = shared.bio_naming(lib)
+    ctx.ob(rule, "scheme", scheme in ("index", "label"), where="lib/src/adfbiodivine.rs", expected="names = statement labels, or (0..n).map(N) for one naming function N", found="%s %s" % (scheme, info))
+    if scheme != "index":
+        return
+    fn_last = info.split("::")[-1]
+    n = 0
+    for b in lib.all_bodies:
+        calls, d = flow.all_call_exprs(b)
+        for bb, t, ci, e in calls:
+            if e[0] == "call" and flow.fname(e[1]) == "Formula::to_boolean_expr" and b.qual != "Formula::to_boolean_expr":
+                n += 1
+                ok = len(e[3]) == 2 and e[3][1][0] == "closure"
+                why = flow.show(e)[:200]
+                if ok:
+                    cb = lib.body(e[3][1][1])
+                    cr = flow.closure_ret(lib, cb)
+                    pat = C("Adf::" + fn_last, C("expect", C("AdfParser::dict_value", ANY, P(2)), ANY))
+                    ok = match(cr, pat) is not None
+                    # the dictionary is the one of the parser whose formula is converted
+                    if ok:
+                        dv = flow.find(cr, lambda n_: n_[0] == "call" and flow.last(n_[2]) == "dict_value")[0]
+                        form_src = flow.find(flow.subst_upvars(e[3][0], flow.resolve_captures(lib, b) or []) if b.kind == "closure" else e[3][0], lambda n_: n_[0] == "call" and flow.last(n_[2]) == "ac_at")
+                        ok = bool(form_src) and pat_same_parser(dv[3][0], form_src[0][3][0])
+                    why = flow.show(cr)[:200]
+                ctx.ob(rule, "%s.atom-names" % b.qual, ok, where=b.where(t.get("loc")), expected="to_boolean_expr(&|name| N(parser.dict_value(name))) with the formula's own parser", found=why)
+    ctx.floor(rule, "to_boolean_expr call sites", n, 2)
+    try:
+        b = lib.one("parser::AdfParser::dict_value")
+        d = flow.Defs(b)
+        ret = d.expr_local(0)
+        ok = match(ret, C("copied", C("get", C("expect", C("read", F(P(1), "dict")), ANY), P(2)))) is not None
+        ctx.ob(rule, "dict_value", ok, where=b.where(), expected="dict.read().get(value).copied()", found=flow.show(ret)[:160])
+    except LookupError as e:
+        ctx.lost(rule, "dict_value", str(e))
+    # vars are taken from the variable set in creation order
+    try:
+        b = lib.one("adfbiodivine::Adf::from_parser")
+        d = flow.Defs(b)
+        ret = d.expr_local(0)
+        fs = dict(ret[3]) if ret[0] == "adt" else {}
+        ok = "vars" in fs and match(fs["vars"], C("variables", C("build", ANY))) is not None
+        ctx.ob(rule, "vars-in-creation-order", ok, where=b.where(), expected="vars: builder.build().variables()", found=flow.show(fs.get("vars", ("x",)))[:160])
+    except LookupError as e:
+        ctx.lost(rule, "adfbiodivine::Adf::from_parser", str(e))
+
+
+def pat_same_parser(a, b):
+    def root(x):
+        while isinstance(x, tuple) and x and x[0] in ("field", "call") and (x[0] == "field" or (x[3] and flow.last(x[2]) in ("clone", "deref", "borrow"))):
+            x = x[1] if x[0] == "field" else x[3][0]
+        return x
+    ra, rb = root(a), root(b)
+    def key(x):
+        if x[0] == "oparam":
+            return ("p", flow.sg(x[1]).split("::{closure")[0], x[2])
+        if x[0] == "param":
+            return ("p", None, x[1])
+        return x
+    ka, kb = key(ra), key(rb)
+    if ka[0] == "p" and kb[0] == "p":
+        return ka[2] == kb[2]
+    return ka == kb
+
+
 def F_order(ctx, lib):
     rule = "C09.F-order"
     ctx.rule(rule, "from_parser (native and biodivine): parser.formula_order().iter().enumerate().for_each(|(insert_order, new_order)| result.ac[*new_order] = "
@@ -309,7 +384,8 @@ def F_order(ctx, lib):
         if len(fe) != 1:
             continue
         cb = lib.body(fe[0].closure_def)
-        eng = ctx.engine([lib], no_inline={"adf_bdd::adf::Adf::term", "adf_bdd::parser::Formula::to_boolean_expr", "adf_bdd::parser::AdfParser::ac_at"})
+        eng = ctx.engine([lib], no_inline={"adf_bdd::adf::Adf::term", "adf_bdd::parser::Formula::to_boolean_expr", "adf_bdd::parser::AdfParser::ac_at",
+                                           "adf_bdd::parser::AdfParser::dict_value"})
         st = symx.State()
         caps = flow.resolve_captures(lib, cb) or []
         capvals = []
@@ -421,5 +497,6 @@ def check(ctx):
         A_wire_reader(ctx, lib)
         A_term(ctx, lib)
         F_order(ctx, lib)
+        A_name(ctx, lib)
         C01.A_hybrid(ctx, lib)
         kernel.T_conn(ctx, lib)
